@@ -6,3 +6,4 @@ import Proofs.Lemmas.CoreLayout
 import Proofs.Lemmas.CoreRW
 import Proofs.Lemmas.CoreRT
 import Proofs.Lemmas.CoreRS
+import Proofs.Lemmas.CoreWin
